@@ -122,14 +122,17 @@ def check(ctx):
            consequence="the vector potential can reach the operators without going through the link-variable code")
     fu = repo.func(SOLVER, "TDGLSolver.update")
     env = repo.local_types(fu)
+    from .c10 import update_roles
+    from ..src import rename_id
+    induced, applied = update_roles(fu.node)
     args = []
     for n in own_nodes(fu.node):
         if isinstance(n, ast.Call):
             r = repo.resolve_call(fu, n, env)
             if getattr(r, "fq", None) == f"{OPS}:MeshOperators.set_link_exponents":
-                args.append(norm(n.args[0]) if n.args else "?")
-    ok = sorted(args) == sorted(["current_A_applied", "current_A_applied + A_induced"]) or \
-        sorted(args) == sorted(["current_A_applied", "A_induced + current_A_applied"])
+                # locals named by role: APPLIED = what is remembered as self.current_A_applied, INDUCED = the screening iterate
+                args.append(rename_id(rename_id(norm(n.args[0]), applied, "APPLIED"), induced, "INDUCED") if n.args else "?")
+    ok = sorted(args) in (sorted(["APPLIED", "APPLIED + INDUCED"]), sorted(["APPLIED", "INDUCED + APPLIED"]))
     ctx.ob("R04.5", "solver hands set_link_exponents the applied (+ induced) potential", ok, detail=args,
            where=fu.fq, construct="set_link_exponents arguments", loc=loc(fu, fu.node),
            message=f"set_link_exponents is called with {args}",
